@@ -53,7 +53,8 @@ GoJudge(hist, p, EV, sm, d, plain, rp, got, child, line, lo, hi) ==
   LET v == rp[1]
       deep == Ev.mode = "deeprep"
       mate == Ev.mode = "mate"          \* lo: the certificate of a forced mate in Ev.n verifies; hi: the position after the best move is still a forced mate
-      free == Ev.mode \in {"free", "mate"}          \* no reference value for this search: only what holds for every search is demanded
+      mated == Ev.mode = "mated"        \* lo: whatever the side to move does it is mated within Ev.nd - 1 further moves (certificate verified)
+      free == Ev.mode \in {"free", "mate", "mated"}          \* no reference value for this search: only what holds for every search is demanded
       gotv == IF got.kind = "cp" THEN (IF Ch(got.v, 1) = "-" THEN -ParseNat(SubSeq(got.v, 2, Len(got.v))) ELSE ParseNat(got.v)) ELSE 0
       missing == AbsInt(v) > 1200000
       exp == ToUciScore(v)
@@ -76,6 +77,9 @@ GoJudge(hist, p, EV, sm, d, plain, rp, got, child, line, lo, hi) ==
             <<(mate /\ lo) => (mateN >= 1 /\ mateN <= Ev.n), Prop,
               "the side to move can force mate in " \o ToString(Ev.n) \o " (certificate verified reply by reply: " \o ToString(Ev.cert.m) \o " ...), yet go depth " \o ToString(d)
                 \o " on " \o RenderFen(p) \o " reports " \o ScoreStr(got), "mate " \o ToString(Ev.n)>>,
+            <<(mated /\ lo) => (got.kind = "mate" /\ Ch(got.v, 1) = "-" /\ ParseNat(SubSeq(got.v, 2, Len(got.v))) >= 1 /\ ParseNat(SubSeq(got.v, 2, Len(got.v))) <= Ev.nd - 1), Prop,
+              "the side to move is mated within " \o ToString(Ev.nd - 1) \o " moves whatever it plays (certificate verified reply by reply), yet go depth " \o ToString(d)
+                \o " on " \o RenderFen(p) \o " reports " \o ScoreStr(got), "mate -" \o ToString(Ev.nd - 1) \o " or nearer">>,
             <<(mate /\ lo /\ mateN >= 1) => hi, Prop,
               "the move played, " \o Ev.best \o ", does not keep the forced mate in " \o ToString(Ev.n) \o " on " \o RenderFen(p), ToString(Ev.cert.m)>>,
             <<deep => lo, "C10", "machinery: the case is not a forced cycle completing a threefold repetition at ply 4", "">>,
@@ -92,7 +96,7 @@ GoJudge(hist, p, EV, sm, d, plain, rp, got, child, line, lo, hi) ==
             <<Ev.flipof = 0 \/ (prevGo.fen = RenderFen(Flip(PosOfFen(Ev.fen))) /\ prevGo.score = got), "C11",
               "score on the colour-flipped twin differs: " \o ScoreStr(got) \o " vs " \o ToString(prevGo.score), ToString(prevGo.score)>> >>)
      /\ prevGo' = [fen |-> Ev.fen, score |-> got]
-     /\ ntr' = IF mate THEN (IF lo THEN ntr \cup {l} ELSE ntr)
+     /\ ntr' = IF mate \/ mated THEN (IF lo THEN ntr \cup {l} ELSE ntr)
                ELSE IF d >= 2 \/ got.kind = "mate" \/ isRep \/ deep \/ (Ev.mode = "fifty" /\ p.hmc >= 90) THEN ntr \cup {l} ELSE ntr
 
 \* cyc = positions along the four cycle moves from the root: both replies of the opponent are the only legal moves, and the
@@ -107,15 +111,17 @@ GoWith(hist, EV) ==
       sm == ToS(Ev.searchmoves)
       plain == Ev.ref # "ab"
       deep == Ev.mode = "deeprep"
-      noref == Ev.mode \in {"deeprep", "free", "mate"}
+      noref == Ev.mode \in {"deeprep", "free", "mate", "mated"}
       mate == Ev.mode = "mate"
+      mated == Ev.mode = "mated"
       after == Positions(p, <<Ev.best>>, 1)
   IN GoJudge(hist, p, EV, sm, Ev.d, plain,
              IF noref THEN <<0, {}>> ELSE IF plain THEN RootPlain(EV, p, Ev.d, sm) ELSE <<RootAB(EV, p, Ev.d, sm), {}>>,
              [kind |-> Ev.score.kind, v |-> Ev.score.v],
              IF Len(Ev.searchmoves) = 1 THEN Positions(p, Ev.searchmoves, 1) ELSE <<p>>,
              Positions(p, Ev.pv, 1),
-             IF deep THEN ForcedCycle(hist, Positions(p, Ev.cycle, 1)) ELSE IF mate THEN VerifyAtt(p, Ev.cert, Ev.n) ELSE FALSE,
+             IF deep THEN ForcedCycle(hist, Positions(p, Ev.cycle, 1)) ELSE IF mate THEN VerifyAtt(p, Ev.cert, Ev.n)
+             ELSE IF mated THEN (Legal(p) # {} /\ VerifyDef(p, Ev.certd, Ev.nd)) ELSE FALSE,
              IF mate /\ Len(after) = 2 THEN ((Ev.has2 /\ VerifyDef(after[2], Ev.cert2, Ev.n)) \/ BruteDef(after[2], Ev.n)) ELSE FALSE)
 
 GoDepth ==
